@@ -595,5 +595,91 @@ fn main() {
             }
         }
     }
+    // =========================== EPS boundary of ts_vcorr (notes/mutation-M1.md) ==================
+    // `if (var_a > EPS) & (var_b > EPS)`: the guard is STRICT.  Series whose variance - computed from the running sums in the
+    // closure's own operation order - is BIT-EQUAL to EPS = 1e-14 at the last position: the correlation is null there, a
+    // non-strict guard (binary.rs:122 `>` -> `>=`, seen only by the static tie before) gives a number.  Zero-sum families, so
+    // that nothing cancels and the value EPS is reachable: [x, -x, 0, .., 0] (var = fl(2 fl(x^2) / n)) and [x, -x, y, -y]
+    // (var = fl(sum2) / 4); x by a deterministic scan of the doubles around the real solution (no randomness).  The boundary
+    // series takes both roles (var_a / var_b), both driver bodies, the caller buffer, f64 and Option<f64> elements.
+    {
+        const EPS: f64 = 1e-14;
+        fn var_like_code(v: &[f64]) -> f64 {
+            let (mut s, mut s2) = (0.0f64, 0.0f64);
+            for x in v {
+                s += *x;
+                s2 += *x * *x;
+            }
+            let n = v.len() as f64;
+            let mean = s / n;
+            let mut var = s2 / n;
+            var -= mean.powi(2);
+            var
+        }
+        fn scan(center: f64, build: &dyn Fn(f64) -> Vec<f64>) -> Option<Vec<f64>> {
+            let c = center.to_bits();
+            for k in 0..8192u64 {
+                for bits in [c + k, c - k] {
+                    let v = build(f64::from_bits(bits));
+                    if var_like_code(&v) == EPS {
+                        return Some(v);
+                    }
+                }
+            }
+            None
+        }
+        // [x, -x, 0, ..., 0] of n = 2..=12 elements (var = fl(2 fl(x^2) / n)): the first n that has a hit; [x, -x, y, -y] for
+        // y = 1e-7 (1 + j/64), j = 0..16: the first two hits (each (n) / (j) is reachable or not depending on rounding parity)
+        let mut fams: Vec<(String, Vec<f64>)> = vec![];
+        for n in 2..=12usize {
+            if let Some(v) = scan((n as f64 * EPS / 2.0).sqrt(), &|x| { let mut v = vec![x, -x]; v.resize(n, 0.0); v }) {
+                fams.push((format!("pm0_{}", n), v));
+                break;
+            }
+        }
+        let mut hits4 = 0;
+        for j in 0..16 {
+            let y = 1.0e-7 * (1.0 + j as f64 / 64.0);
+            if let Some(v) = scan((2.0 * EPS - y * y).sqrt(), &|x| vec![x, -x, y, -y]) {
+                fams.push((format!("pm4_{}", j), v));
+                hits4 += 1;
+                if hits4 == 2 { break; }
+            }
+        }
+        assert!(fams.len() >= 2, "no series with a variance bit-equal to EPS found");
+        let spread = [1.0, 2.0, 0.5, 4.0, -1.5, 3.0, 0.25, -2.0, 1.75, 5.0, -0.5, 2.5];
+        for (fam, bd) in fams.iter() {
+            let n = bd.len();
+            let other: Vec<f64> = spread[..n].to_vec();
+            for role in 0..2 {
+                let (a, b) = if role == 0 { (bd.clone(), other.clone()) } else { (other.clone(), bd.clone()) };
+                let (a_coq, b_coq) = (coq_fs(&a), coq_fs(&b));
+                let (ao, bo) = (to_opt(&a), to_opt(&b));
+                let (ao_coq, bo_coq) = (coq_os(&ao), coq_os(&bo));
+                for w in [n, n + 1] {
+                    for mp in [None, Some(0usize), Some(2)] {
+                        let mp_coq = coq_opt(&mp, |m| coq_nat(*m));
+                        let cmp = "custom:sing:1e-7,1".to_string();
+                        let tags = |ty: &str, be: &str| format!(
+                            "fn=ts_vcorr ty={} be={} len={} wrel={} mp={} nullfrac=0 nullfrac2=0 style=eps_boundary_{}_{} nulls=none nulls2=none",
+                            ty, be, n, wrel(w, n), mp_tag(w, mp), fam, if role == 0 { "first" } else { "second" });
+                        let desc = |ty: &str, be: &str| format!("fn=ts_vcorr ty={} be={} w={} mp={:?} a={:?} b={:?} (variance of the {} series bit-equal to EPS at the last position)",
+                            ty, be, w, mp, a, b, if role == 0 { "first" } else { "second" });
+                        let term = |suffix: &str, body: bool, x: &str, y: &str| format!(
+                            "(run_two_{} 1 {} {} {} {} {})", suffix, coq_bool(body), coq_nat(w), mp_coq, x, y);
+                        em.case(&cmp, &tags("f64", "vec"), &desc("f64", "vec"), || term("ff", true, &a_coq, &b_coq),
+                            || out_cells(guarded(|| call2!(1, a, &b, w, mp, Vec<f64>))));
+                        em.case(&cmp, &tags("f64", "deque"), &desc("f64", "deque"), || term("ff", false, &a_coq, &b_coq),
+                            || { let (da, db): (VecDeque<f64>, VecDeque<f64>) = (a.iter().cloned().collect(), b.iter().cloned().collect());
+                                 out_cells(guarded(|| call2!(1, da, &db, w, mp, Vec<f64>))) });
+                        em.case(&cmp, &tags("f64", "vec_to"), &desc("f64", "vec_to"), || term("ff", true, &a_coq, &b_coq),
+                            || out_cells(guarded(|| call2_to!(1, a, &b, w, mp))));
+                        em.case(&cmp, &tags("optf64", "vec"), &desc("optf64", "vec"), || term("oo", true, &ao_coq, &bo_coq),
+                            || out_cells_opt(guarded(|| call2!(1, ao, &bo, w, mp, Vec<Option<f64>>))));
+                    }
+                }
+            }
+        }
+    }
     em.finish();
 }
